@@ -26,5 +26,6 @@ func Specs() map[string]*PropSpec {
 	add(&PropSpec{ID: "C17", Explanation: "keys", Rules: []RuleRef{rR9k}})
 	add(&PropSpec{ID: "C19", Explanation: "pubsub", Rules: []RuleRef{rR17, rR14b}})
 	add(&PropSpec{ID: "C20", Explanation: "select", Rules: []RuleRef{rR20s}})
+	add(&PropSpec{ID: "C15", Explanation: "raft core", Rules: []RuleRef{rR16g}})
 	return m
 }
